@@ -851,6 +851,61 @@ func init() {
 			m.tag(fmt.Sprintf("crash-points-lines%d=%d", lines, total))
 			os.RemoveAll(ref)
 		}
+		// histories: a save killed at any system call, followed in the same directory by a complete save of the
+		// same test with other (shorter / longer) content: what the killed run left behind must not leak into a
+		// file the next run would pick up
+		wantOf := func(lines int) string {
+			ref, _ := os.MkdirTemp(tmp, "c16ref-")
+			defer os.RemoveAll(ref)
+			exec.Command(self, "savechild", ref, "TestKill", strconv.Itoa(lines)).Run()
+			fs := listFailFiles(ref, "TestKill")
+			if len(fs) != 1 {
+				return ""
+			}
+			b, _ := os.ReadFile(fs[0])
+			return string(b)
+		}
+		for _, pair := range [][2]int{{40, 0}, {40, 3}, {3, 40}} {
+			first, second := pair[0], pair[1]
+			w1, w2 := wantOf(first), wantOf(second)
+			for _, call := range []string{"openat", "write", "close", "renameat", "renameat2"} {
+				for k := 1; k < 400; k++ {
+					dir, _ := os.MkdirTemp(tmp, "c16h-")
+					cmd := exec.Command("strace", "-f", "-o", "/dev/null", "-e", "trace="+call,
+						"-e", fmt.Sprintf("inject=%s:signal=SIGKILL:when=%d", call, k), self, "savechild", dir, "TestKill", strconv.Itoa(first))
+					_, err := cmd.CombinedOutput()
+					if err == nil {
+						os.RemoveAll(dir)
+						break
+					}
+					out2, err2 := exec.Command(self, "savechild", dir, "TestKill", strconv.Itoa(second)).CombinedOutput()
+					files := listFailFiles(dir, "TestKill")
+					m.eval(fmt.Sprintf("history kill(%d)@%s#%d then save(%d)", first, call, k, second), true)
+					m.tag("history-kill-then-save")
+					if err2 != nil {
+						m.violate(violation{"C16", "history", fmt.Sprintf("after a %d-line save killed at %s #%d, the next save failed: %s", first, call, k, strings.TrimSpace(string(out2))),
+							map[string]string{"first": fmt.Sprint(first), "second": fmt.Sprint(second), "call": call, "k": fmt.Sprint(k)}})
+					}
+					sawSecond := false
+					for _, f := range files {
+						got, _ := os.ReadFile(f)
+						if string(got) == w2 {
+							sawSecond = true
+						}
+						if string(got) != w1 && string(got) != w2 {
+							m.violate(violation{"C16", "history", fmt.Sprintf("a %d-line save killed at %s #%d, then a complete %d-line save: a file matching the fail-file pattern holds %d bytes that are neither save (%d / %d bytes)",
+								first, call, k, second, len(got), len(w1), len(w2)),
+								map[string]string{"first": fmt.Sprint(first), "second": fmt.Sprint(second), "call": call, "k": fmt.Sprint(k), "file": filepath.Base(f)}})
+						}
+					}
+					if err2 == nil && !sawSecond {
+						m.violate(violation{"C16", "history", fmt.Sprintf("a %d-line save killed at %s #%d, then a complete %d-line save: no file holds the second save", first, call, k, second),
+							map[string]string{"first": fmt.Sprint(first), "second": fmt.Sprint(second), "call": call, "k": fmt.Sprint(k)}})
+					}
+					os.RemoveAll(dir)
+				}
+			}
+		}
 	}
 }
 
@@ -1045,6 +1100,34 @@ func init() {
 			if firsts[i] == firsts[0] {
 				m.violate(violation{"C18", "fresh", "two Check calls without -rapid.seed started with the same test cases", map[string]string{}})
 			}
+		}
+		// … and not a shifted or reordered copy either: the test cases of any two Check calls of this process, as sets,
+		// have next to nothing in common (two full-range 64-bit draws per case; the small-value bias of the
+		// generators makes a few coincidences possible), and the cases of one run are mostly distinct
+		var sets []map[string]bool
+		for i := 0; i < 4; i++ {
+			run := runCheckTB(mustSX("((draw a (u 0 18446744073709551615)) (draw b (u 0 18446744073709551615)))"), fl, "c18", nil)
+			set := map[string]bool{}
+			for _, inv := range run.in.invs {
+				set[strings.Join(inv.vals, ",")] = true
+			}
+			if n := len(run.in.invs); n >= 10 && len(set)*10 < n*8 {
+				m.violate(violation{"C18", "fresh", fmt.Sprintf("a run of %d test cases has only %d distinct ones", n, len(set)), map[string]string{}})
+			}
+			for j, other := range sets {
+				common := 0
+				for k := range set {
+					if other[k] {
+						common++
+					}
+				}
+				m.eval(fmt.Sprintf("freshness-sets %d %d", j, i), true)
+				m.tag("freshness-set-comparison")
+				if len(set) >= 10 && common*5 > len(set) {
+					m.violate(violation{"C18", "fresh", fmt.Sprintf("Check calls %d and %d of this process without -rapid.seed have %d of %d test cases in common", j+1, i+1, common, len(set)), map[string]string{}})
+				}
+			}
+			sets = append(sets, set)
 		}
 	}
 }
